@@ -14,6 +14,7 @@ type syncDelayJob struct {
 	Spec    nsqd.SyncSpec `json:"spec"`
 	Bound   int           `json:"bound"`
 	MaxRuns int           `json:"max_runs"`
+	Secs    int           `json:"secs"`
 }
 
 func init() {
@@ -24,7 +25,10 @@ func init() {
 			return nil, err
 		}
 		body := func() vx.Out { return nsqd.RunSync(j.Spec) }
-		res := vx.Delay(body, j.Bound, vx.Opt{MaxRuns: j.MaxRuns, MaxSteps: 3000000})
+		// (the execution budget is what bounds the search; the deadline only keeps a job on a
+		// loaded machine from being taken for a hung worker - reaching it is reported as
+		// "not exhaustive", never as a verdict)
+		res := vx.Delay(body, j.Bound, vx.Opt{MaxRuns: j.MaxRuns, MaxSteps: 3000000, Deadline: time.Now().Add(time.Duration(j.Secs) * time.Second)})
 		kept := res.Found[:0]
 		for _, f := range res.Found {
 			sched, _ := f.Replay.([]int)
@@ -138,10 +142,11 @@ func checkC16(tier string) int {
 	// lookupLoop) for delete-then-recreate and create-then-delete, <= 1 deviation
 	var dj []interface{}
 	var dspecs []nsqd.SyncSpec
-	dBound, dRunsMax := 1, 3000
+	dBound, dRunsMax, dSecs := 1, 3000, 300
 	if tier == "thorough" {
-		dBound, dRunsMax = 2, 60000
+		dBound, dRunsMax, dSecs = 2, 60000, 1500
 	}
+	vx.JobTimeout = time.Duration(dSecs+240) * time.Second
 	for _, os := range [][]string{{"mk:a", "rm:a"}, {"mk:a", "rm:a", "mk:a"}, {"mk:a", "mkch:a:x", "rmch:a:x"}, {"mk:a", "mkch:a:x", "rmch:a:x", "mkch:a:x"}, {"mk:a", "mk:b"}, {"mk:a", "mkch:a:x", "rm:a"},
 		{"mk:a", "mkch:a:x", "rm:a", "mk:a"}, {"mk:a", "mkch:a:x", "rm:a", "mkch:a:x"}, {"mkeph", "mk:a", "rm:a"}} {
 		for _, lk := range []int{1, 2} {
@@ -150,7 +155,7 @@ func checkC16(tier string) int {
 			}
 			sp := nsqd.SyncSpec{Lookupds: lk, Ops: os, Explore: true}
 			dspecs = append(dspecs, sp)
-			dj = append(dj, syncDelayJob{Spec: sp, Bound: dBound, MaxRuns: dRunsMax})
+			dj = append(dj, syncDelayJob{Spec: sp, Bound: dBound, MaxRuns: dRunsMax, Secs: dSecs})
 		}
 	}
 	dRuns := 0
